@@ -7,7 +7,7 @@ from . import array_folds as af
 
 from . import quantity_stack as qs
 
-EXPLANATION = "Folds of core/base.py and core/array.py: (R1) __array_ufunc__/__array_function__ forward the function and ALL arguments to the one wrapper; (R2) for every function of the property's unit-transforming catalogue the unit is derived by applying the function to the operand units, others inherit; (R3) np.add(a [m], b [cm]): a numeric result may inherit self.unit only after the other operands were reconciled (today: not done -> known finding K1); (R4) dtype gate over the 16-dtype model; (R5) out=: unit stored on the out object, which is returned; (R6) buffers/units extracted from every argument kind; sequence first arguments; (R7) Array.to exact (shared); (R8) end-to-end: Base/Array interpreted under models of numpy's dispatch (ufunc call normalises out= to a tuple, ufunc methods are offered with method=reduce/..., array functions pass the caller's kwargs): the result's physical value (values x symbolic unit scale) is compared with what the function computes. Array functions with out=<Array>, ufunc methods and repeated powers are folded end to end under models of numpy's dispatch (R8). (R9) conversion history (no memo of an earlier conversion); out= on a strided view is written through (numpy.require modelled)."
+EXPLANATION = "Folds of core/base.py and core/array.py: (R1) __array_ufunc__/__array_function__ forward the function and ALL arguments to the one wrapper; (R2) for every function of the property's unit-transforming catalogue the unit is derived by applying the function to the operand units, others inherit; (R3) np.add(a [m], b [cm]): a numeric result may inherit self.unit only after the other operands were reconciled (today: not done -> known finding K1); (R4) dtype gate over the 16-dtype model; (R5) out=: unit stored on the out object, which is returned; (R6) buffers/units extracted from every argument kind; sequence first arguments; (R7) Array.to exact (shared); (R8) end-to-end: Base/Array interpreted under models of numpy's dispatch (ufunc call normalises out= to a tuple, ufunc methods are offered with method=reduce/..., array functions pass the caller's kwargs): the result's physical value (values x symbolic unit scale) is compared with what the function computes. Array functions with out=<Array>, ufunc methods and repeated powers are folded end to end under models of numpy's dispatch (R8). (R9) conversion history (no memo of an earlier conversion); out= on a strided view is written through (numpy.require modelled). R7 includes np.add/subtract/multiply(a, b, out=buf) with buf in another unit."
 NOT_DECIDED = "numpy's values; functions whose correct unit is neither inherited nor in the property's catalogue (var, prod, argsort, ...)"
 TRUSTED = ('CPython ast', 'numpy/pint behave as documented', 'S4 catalogue (from the property text)', 'numpy dtype model', 'the interpreter sa/models.py (ModelEval) and its library models')
 
